@@ -360,6 +360,77 @@ def rule_zero_of_stored(P):
     return R
 
 
+def rule_partial_shortcut(P):
+    """a partial operation (x - infinity, x / 0, x % 0) raises its error in the terminal case of the policy's apply(); the shortcut predicates
+    simplifiesToFirstArg / simplifiesToSecondArg end the recursion *before* any terminal of the second operand is looked at.  A shortcut is
+    therefore sound only where it pins the second operand to one constant handle (e.g. OMEGA_NORMAL == b, one.getHandle() == b); a shortcut
+    taken on the first operand alone (0 / b = 0, infinity - b = infinity) or on a class of handles (isTerminalNode(b)) returns a value where
+    the documented behaviour is the error"""
+    import re
+    from rules_dispatch import _context
+    R = RuleResult("guard.partial-shortcut", "in every arithmetic policy whose terminal apply() throws DIVIDE_BY_ZERO / SUBTRACT_INFINITY, each way simplifiesToFirstArg / simplifiesToSecondArg can answer true compares the second operand's handle with one constant")
+    thr = {}
+    for f in P.fns.values():
+        if f.get("cfg") and f["file"].startswith("operations/arith_") and f["q"].split("::")[-1] == "apply":
+            for b in f["cfg"]["blocks"]:
+                for e in b["ev"]:
+                    if e["k"] == "throw" and e.get("code") in ("DIVIDE_BY_ZERO", "SUBTRACT_INFINITY"):
+                        thr.setdefault(base_name(f["q"]).rsplit("::", 1)[0], set()).add(e["code"])
+    if len(thr) < 5:
+        raise AnalysisBroken("guard.partial-shortcut: expected ≥5 throwing policy templates (mt_div, evplus_div, evstar_div, evplus_minus, mt_mod, evplus_mod), found %s" % sorted(thr))
+    seen = set()
+    for f in sorted(P.fns.values(), key=lambda f: (f["file"], f["line"], f["inst"])):
+        bq = base_name(f["q"])
+        if "::" not in bq:
+            continue
+        cls, nm = bq.rsplit("::", 1)
+        if cls not in thr or nm not in ("simplifiesToFirstArg", "simplifiesToSecondArg") or not f.get("cfg") or (f["file"], f["line"]) in seen:
+            continue
+        seen.add((f["file"], f["line"]))
+        g = Graph(f)
+        ps = [p_["name"] for p_ in f["params"]]
+        second = ps[-1]                      # (L, fa, a, fb, b) or (L, f1, av, an, f2, bv, bn): the second operand's node handle is last
+        R.functions.add(f["inst"])
+        pins = lambda t: re.search(r"==\s*%s\b|\b%s\s*==" % (second, second), t) is not None
+        for n in g.nodes:
+            if n.kind != "ret":
+                continue
+            text = re.sub(r"\s+", " ", n.ev.get("text", "")).strip()
+            if text in ("false", "0", ""):
+                continue
+            ctx = [t for t, arm in _context(g, n) if arm == "true"]
+            ctx_pins = any(pins(t) for t in ctx)
+            t0 = text
+            while t0.startswith("(") and t0.endswith(")") and t0.count("(") == t0.count(")") and "||" not in t0:
+                t0 = t0[1:-1].strip()
+            disj, d, cur = [], 0, ""
+            i = 0
+            while i < len(t0):
+                ch = t0[i]
+                d += ch == "("
+                d -= ch == ")"
+                if d == 0 and t0.startswith("||", i):
+                    disj.append(cur.strip())
+                    cur = ""
+                    i += 2
+                    continue
+                cur += ch
+                i += 1
+            disj.append(cur.strip())
+            for dj in disj:
+                R.paths += 1
+                dtxt = dj if dj not in ("true", "1") else "true when " + " && ".join(ctx)
+                iid = "%s::%s: `%s`" % (cls.replace(M, ""), nm, dtxt[:80])
+                if ctx_pins or pins(dj):
+                    R.ok(iid, where(f, n.line))
+                else:
+                    R.fail(iid, where(f, n.line), Finding(R.rule, f["file"], bq, "shortcut:" + re.sub(r"\s+", "", dtxt)[:70],
+                           "%s answers true by `%s` without comparing the second operand `%s` with a constant: the recursion stops before the terminal case that raises %s, and a value is returned for %s" % (
+                               nm, dtxt, second, "/".join(sorted(thr[cls])), "x - infinity" if "SUBTRACT_INFINITY" in thr[cls] else "x / 0 (x % 0)"), n.line, inst=f["inst"]))
+    R.require_floor(8, "ways a throwing policy's shortcut predicates can answer true")
+    return R
+
+
 def rule_null_op(P):
     R = RuleResult("guard.null-op", "every apply() wrapper tests the operation returned by the factory and throws NOT_IMPLEMENTED when it is null, before calling compute on it")
     for f in sorted(P.fns.values(), key=lambda f: (f["file"], f["line"], f["inst"])):
@@ -420,4 +491,4 @@ def rule_iterator_deref(P):
 
 
 RULES = [rule_ctor_checks, rule_div_zero, rule_sub_infinity, rule_int_overflow, rule_edge_for_value, rule_null_op, rule_iterator_deref]
-VALUE_RULES = [rule_zero_of_stored]
+VALUE_RULES = [rule_zero_of_stored, rule_partial_shortcut]
